@@ -453,7 +453,7 @@ def is_instance(value: Any, type_: Any) -> bool:
     """
 
     # We do not want Python implicit isinstance(True, int) == True
-    if type_ is int and value is True or value is False:
+    if type_ is int and (value is True or value is False):
         return False
 
     try:
